@@ -132,6 +132,13 @@ Theorem c08_policies_exact : forall s i,
 Proof. intros s i. split; [intros p; apply policies_exact | apply policies_only]. Qed.
 Print Assumptions c08_policies_exact.
 
+(* merge, the part that is proved: without renaming a successful merge renamed nothing (any conflict is
+   an error, and by c08_fail_noop_* the set is then unchanged); with renaming merge always succeeds *)
+Theorem c08_merge_partial : forall a b,
+  (forall s' r, ps_merge a b false = OOk (s', r) -> r = []) /\ (exists s' r, ps_merge a b true = OOk (s', r)).
+Proof. intros a b. split; [apply ps_merge_norename | apply ps_merge_rename_total]. Qed.
+Print Assumptions c08_merge_partial.
+
 (* consequences of the invariant, in the property's words *)
 Theorem c08_no_shared_id : forall s i p t, WF s ->
   alookup i (ps_links s) = Some p -> alookup i (ps_templates s) = Some t -> plink p = None /\ t = ptemplate p.
